@@ -213,8 +213,9 @@ func (grid *RegularGrid) IntersectQuad(r Ray) (*Quad, float32) {
 		t = xt
 	}
 
-	// start the Bresenham-like algo:
-	for {
+	// start the Bresenham-like algo; every step leaves a cell through a row or column boundary, so
+	// rows+cols steps cross the whole grid (without the bound a step too small to change t never ends):
+	for steps := 0; steps <= len(grid.Grid)+len(grid.Grid[0]); steps++ {
 		hitPoint := Add(newRay.From, Mul(rayDir, t))
 
 		cellX := (uint)(math.Floor((float64)(hitPoint.x-grid.Min.x) / (float64)(grid.Resolution)))
@@ -222,7 +223,7 @@ func (grid *RegularGrid) IntersectQuad(r Ray) (*Quad, float32) {
 
 		// clamp to bounds
 		cellX = (uint)(math.Min((float64)(cellX), (float64)(len(grid.Grid[0])-1)))
-		cellX = (uint)(math.Min((float64)(cellY), (float64)(len(grid.Grid)-1)))
+		cellY = (uint)(math.Min((float64)(cellY), (float64)(len(grid.Grid)-1)))
 
 		tMin := (float32)(math.Inf(1))
 		var resultQuad *Quad
